@@ -28,7 +28,7 @@ def main():
             for a in d["adts"]:
                 if not facts._adt_candidate(a, d["crate"]):
                     continue
-                e = adts.setdefault(a["path"], {"crate": d["crate"], "shape": facts.adt_shape(a), "fields": [[f["n"] for f in v["fields"]] for v in a["variants"]], "names": sorted({v["n"] for v in a["variants"]} | {f["n"] for v in a["variants"] for f in v["fields"]}), "cfgs": []})
+                e = adts.setdefault(a["path"], {"crate": d["crate"], "shape": facts.adt_shape(a), "fields": [[f["n"] for f in v["fields"]] for v in a["variants"]], "variants": [v["n"] for v in a["variants"]], "names": sorted({v["n"] for v in a["variants"]} | {f["n"] for v in a["variants"] for f in v["fields"]}), "cfgs": []})
                 if cfg not in e["cfgs"]:
                     e["cfgs"].append(cfg)
         for d in raws:
